@@ -1799,12 +1799,57 @@ class _PathEx(SymEx):
     wherever the control flow needs the truth of a formula (if / ?: / loop conditions, at any inlining depth) the path
     takes the next decision of its oracle and records the assumption."""
 
-    def __init__(self, facts_list, opaque, decisions):
+    def __init__(self, facts_list, opaque, decisions, accept=None):
         super().__init__(facts_list, opaque=opaque)
         self.decisions = list(decisions)
         self.taken = []
         self.path = []
         self.abs_args = {}
+        self.accept = accept      # callable(call node, callee, this_loc, args) -> True for the call that means "accepted"
+        self.accepted = False
+        self.nabs = 0
+        self.in_abs = False
+
+    def exec(self, n, env, fn):
+        # acceptance mode: a loop whose bound is not a constant (the loop over the candidates) is entered for ONE arbitrary
+        # iteration: the loop variable becomes a symbol, the body is executed once, the accept call tells the verdict
+        if self.accept is not None and not self.in_abs and n is not None and n.get("k") in ("For", "While") and len(self.frame_roots) == 0:
+            if n.get("init"):
+                SymEx.exec(self, n["init"], env, fn)
+            try:
+                c = n.get("c") is None or SymEx.truth(self, self.rv(self.eval(n["c"], env, fn)))
+                constant = True
+            except NotClosedForm:
+                constant = False
+            if not constant:
+                for vn in AbsSymEx._inc_targets(n.get("inc")) or AbsSymEx._loop_vars(n):
+                    lv = self.eval(vn, env, fn)
+                    if isinstance(lv, Loc):
+                        self.nabs += 1
+                        self.store[lv.key()] = Poly.sym("%s#%d" % (vn.get("n", "it"), self.nabs))
+                self.in_abs = True      # only the OUTERMOST data dependent loop is the candidate loop; loops inside run on decisions
+                try:
+                    self.exec(n["body"], env, fn)
+                except (_Break, _Continue):
+                    pass
+                finally:
+                    self.in_abs = False
+                return
+            if n.get("k") == "For":
+                # constant bound: unroll (the initialiser has been executed already)
+                while c:
+                    self.tick()
+                    try:
+                        self.exec(n["body"], env, fn)
+                    except _Break:
+                        break
+                    except _Continue:
+                        pass
+                    if n.get("inc") is not None:
+                        self.eval(n["inc"], env, fn)
+                    c = n.get("c") is None or self.truth(self.eval(n["c"], env, fn))
+                return
+        return super().exec(n, env, fn)
 
     # --- formulas -------------------------------------------------------------------------------------
     def as_formula(self, v):
@@ -1946,6 +1991,12 @@ class _PathEx(SymEx):
 
     def call(self, n, env, fn):
         callee = n.get("callee", "")
+        if self.accept is not None and n.get("k") == "MCall":
+            o = n.get("obj")
+            ov = self.eval(o, env, fn) if o is not None else env.get("this")
+            if self.accept(n, callee, ov if isinstance(ov, Loc) else None):
+                self.accepted = True
+                return Poly.const(0)
         if callee in ("FEAT::Math::abs", "std::abs", "std::fabs") and len(n.get("a", [])) == 1:
             a = self.num(self.eval(n["a"][0], env, fn))
             c = a.const_value()
@@ -1960,6 +2011,12 @@ class _PathEx(SymEx):
         return super().call(n, env, fn)
 
     def decide(self, f):
+        # a condition decided before on this path keeps its value (`is_in` tested by the loop header and again after the loop)
+        for g in self.path:
+            if g == f:
+                return True
+            if g == self._not(f) or self._not(g) == f:
+                return False
         i = len(self.taken)
         d = self.decisions[i] if i < len(self.decisions) else True
         self.taken.append(d)
@@ -1987,9 +2044,11 @@ class PredEx:
 
     MAX_PATHS = 512
 
-    def __init__(self, facts_list, opaque=None):
+    def __init__(self, facts_list, opaque=None, accept=None):
         self.facts_list = facts_list
         self.opaque = opaque
+        self.accept = accept    # acceptance mode: the predicate is "the call accept(...) is reached in one arbitrary iteration of
+                                # the candidate loop" instead of "the function returns true"
         self.accepting = []     # [(list of assumed formulas, returned formula)]
         self.npaths = 0
 
@@ -1999,13 +2058,15 @@ class PredEx:
         self.npaths = 0
         while todo:
             dec = todo.pop()
-            px = _PathEx(self.facts_list, self.opaque, dec)
+            px = _PathEx(self.facts_list, self.opaque, dec, accept=self.accept)
             ret = px.run(fn, args=args, this=this, prefix=prefix)
             self.npaths += 1
             if self.npaths > self.MAX_PATHS:
                 raise NotClosedForm("more than %d execution paths" % self.MAX_PATHS)
             for i in range(len(dec), len(px.taken)):
                 todo.append(px.taken[:i] + [False])
+            if self.accept is not None:
+                ret = Poly.const(1 if px.accepted else 0)
             if ret is None:
                 raise NotClosedForm("a path of the predicate ends without returning a value")
             f = px.as_formula(ret)
